@@ -203,6 +203,10 @@ def make_values(rng, n, D, G, kind="moderate"):
                 vaf = np.clip(grid / 2.0, 1e-3, 1 - 1e-3)
                 v[d] = alt * np.log(vaf) + (depth - alt) * np.log1p(-vaf)
                 v[d] -= v[d].max() - rng.normal()
+        elif kind == "near_ties":
+            # every data point has (almost) the same linear profile: moving CCF mass between sibling clones changes the total
+            # by a few 1e-7 only - far above rounding, far below any sensible tolerance for calling two scores equal
+            v = 3.0 * grid[None, :] * np.ones((D, 1)) + 1e-7 * rng.normal(size=(D, G)) * (1 + _i % 3)
         elif kind == "scales":
             # data points of very different weight in one data set: big deeply sequenced clusters (log-likelihoods of
             # magnitude 1e4-1e6, flat-ish or sharply peaked) next to barely informative ones (variation 1e-3..0.3)
@@ -242,8 +246,9 @@ def make_data(rng, n, D, G, kind="moderate", outlier_prior=0.0, sizes=None, tag=
     data = []
     for i, v in enumerate(vals):
         size = 1 if sizes is None else sizes[i]
-        if outlier_prior and outlier_prior > 0:
-            op, opn = math.log(outlier_prior) * size, math.log1p(-outlier_prior) * size if outlier_prior < 1 else -np.inf
+        prior = outlier_prior[i] if isinstance(outlier_prior, (list, tuple)) else outlier_prior  # one value or one per point
+        if prior and prior > 0:
+            op, opn = math.log(prior) * size, math.log1p(-prior) * size if prior < 1 else -np.inf
         else:
             op, opn = 0, 0.0
         data.append(DataPoint(i, v, name="%s_%d" % (tag, i), outlier_prob=op, outlier_prob_not=opn))
